@@ -130,6 +130,103 @@ def _estimate(ck, tier):
                   not bad and len(out) == len(lines), str(bad[:3]), kind='correspondence')
 
 
+def _import_plan(ck, tier):
+    """differential: the grouping of import_objects into add_streamed_object_to_pack / add_objects_to_pack calls vs ImportPlan.plan
+    (extracted), on generated source containers and budgets straddling the object sizes; the order in which the source yields the
+    objects is observed at source.get_objects_stream_and_meta (an oracle of the model)"""
+    import contextlib
+    import os
+    import shutil
+    import subprocess
+    import common
+    common.use_repo()
+    from disk_objectstore import Container
+    rnd = ck.rng
+    ncases = 40 if tier == 'quick' else 400
+    root = common.scratch_root()
+    lines, got, cases = [], [], []
+    try:
+        for ci in range(ncases):
+            ht_s, ht_d = rnd.choice([('sha256', 'sha256'), ('sha256', 'sha1'), ('sha1', 'sha1')])
+            ds, dd = os.path.join(root, f's{ci}'), os.path.join(root, f'd{ci}')
+            src, dst = Container(ds), Container(dd)
+            src.init_container(clear=True, hash_type=ht_s, pack_size_target=rnd.choice([50, 10 ** 6]))
+            dst.init_container(clear=True, hash_type=ht_d, pack_size_target=rnd.choice([40, 10 ** 6]))
+            n = rnd.randint(0, 9)
+            contents = []
+            for i in range(n):
+                ln = rnd.choice([0, 1, 2, 5, 9, 10, 11, 20, 35])
+                contents.append((b'%d:' % i + bytes(rnd.randrange(97, 123) for _ in range(ln)))[:max(ln, 0)] if ln else (b'' if i == 0 else b'%d' % i))
+            contents = list(dict.fromkeys(contents))
+            keys = []
+            for c in contents:
+                keys.append(src.add_object(c) if rnd.random() < 0.5 else src.add_objects_to_pack([c], compress=rnd.random() < 0.5)[0])
+            for c in contents:
+                if rnd.random() < 0.2:
+                    dst.add_object(c)   # already present in the destination (same-hash path filters these out)
+            budget = rnd.choice([1, 5, 10, 11, 21, 50, 1000])
+            yielded, calls = [], []
+            by_content = {c: i for i, c in enumerate(contents)}
+            orig_gosm = src.get_objects_stream_and_meta
+
+            @contextlib.contextmanager
+            def gosm(hashkeys, skip_if_missing=True):
+                with orig_gosm(hashkeys, skip_if_missing=skip_if_missing) as trip:
+                    def gen():
+                        for k, st, m in trip:
+                            yielded.append((k, m.size))
+                            yield k, st, m
+                    yield gen()
+            src.get_objects_stream_and_meta = gosm
+            o_bulk, o_one = dst.add_objects_to_pack, dst.add_streamed_object_to_pack
+
+            def bulk(data, **kw):
+                data = list(data)
+                calls.append(('B', [by_content[bytes(x)] for x in data], kw.get('do_commit', True)))
+                return o_bulk(data, **kw)
+
+            def one(stream, **kw):
+                pos = stream.tell()
+                b = stream.read()
+                stream.seek(pos)
+                calls.append(('D', [by_content[b]], kw.get('do_commit', True)))
+                return o_one(stream, **kw)
+            dst.add_objects_to_pack, dst.add_streamed_object_to_pack = bulk, one
+            req = list(keys) + (['0' * len(keys[0])] if keys and rnd.random() < 0.3 else [])
+            rnd.shuffle(req)
+            mapping = dst.import_objects(req, src, target_memory_bytes=budget, compress=rnd.random() < 0.5)
+            idx_of_key = {k: i for i, k in enumerate(keys)}
+            order = [idx_of_key[k] for k, _ in yielded]
+            sizes = [sz for _, sz in yielded]
+            lines.append(f"plan {budget} | {','.join(map(str, sizes))}")
+            got.append(' '.join(('D%d' % order.index(ix[0])) if t == 'D' else 'B' + ','.join(str(order.index(i)) for i in ix) for t, ix, _ in calls))
+            if any(dc for _, _, dc in calls):
+                got[-1] += ' COMMIT-INSIDE'
+            big = sum(1 for sz in sizes if sz > budget)
+            cases.append({'budget': budget, 'sizes': sizes, 'hash': [ht_s, ht_d], 'requested': len(req)})
+            ck.count(('import-plan', budget, tuple(sizes)), nontrivial=len(sizes) > 1)
+            ck.cov.setdefault('import_plan_shapes', {}).setdefault(f'direct={min(big, 2)},calls={min(len(calls), 3)}', 0)
+            ck.cov['import_plan_shapes'][f'direct={min(big, 2)},calls={min(len(calls), 3)}'] += 1
+            # the mapping mentions exactly the yielded source keys
+            if set(mapping) != {k for k, _ in yielded}:
+                ck.fail(f'import_objects: the returned mapping has keys {sorted(mapping)[:3]}.. but the source yielded {len(yielded)} objects',
+                        {'kind': 'import-plan', 'budget': budget, 'sizes': sizes}, 'C14:mapping-keys')
+            src.close()
+            dst.close()
+            shutil.rmtree(ds, ignore_errors=True)
+            shutil.rmtree(dd, ignore_errors=True)
+    finally:
+        shutil.rmtree(root, ignore_errors=True)
+    out = subprocess.run([os.path.join(common.OCAML, 'driver')], input='\n'.join(lines) + '\n', capture_output=True, text=True, timeout=300).stdout.split('\n')
+    bad = [(l, g, m) for l, g, m in zip(lines, got, out) if g.strip() != m.strip()]
+    ck.obligation('correspondence: the calls import_objects makes on the destination (one streamed object / one bulk flush, all with do_commit=False) '
+                  '== ImportPlan.plan (extracted) on the sizes the source yields, budgets straddling the sizes',
+                  not bad and len(out) >= len(lines), str(bad[:3]), kind='correspondence')
+    ck.cov['import_plan_cases'] = len(lines)
+    if cases:
+        ck.sample(cases[0])
+
+
 def _traces(names):
     def f(ck, tier):
         import scen
@@ -143,4 +240,4 @@ import tracecheck  # noqa: E402
 
 EXTRA = {'C02': _traces(None), 'C03': _traces(None), 'C09': _traces(['add_dup', 'topack', 'topack_nh', 'topack_nh_rt0', 'topack_multi', 'import_same']),
          'C10': (lambda ck, tier: (_traces(['pack_clean', 'pack_auto', 'repack', 'repack_keep'])(ck, tier), _estimate(ck, tier))), 'C11': _traces(['delete', 'repack', 'repack_keep']),
-         'C13': (lambda ck, tier: (_traces(tracecheck.NOREPACK_SCENARIOS)(ck, tier), _pick_pack(ck, tier))), 'C14': _traces(['import_same', 'import_diff', 'import_same_stream', 'import_diff_stream'])}
+         'C13': (lambda ck, tier: (_traces(tracecheck.NOREPACK_SCENARIOS)(ck, tier), _pick_pack(ck, tier))), 'C14': (lambda ck, tier: (_traces(['import_same', 'import_diff', 'import_same_stream', 'import_diff_stream'])(ck, tier), _import_plan(ck, tier)))}
